@@ -210,7 +210,7 @@ def step (t : Trk) : Cmd → Trk
   | .freq n => { t with freq := n }
   | .pbOnTime big tri =>
     let tri' := scale big tri
-    { t with ev := t.ev ++ (ramp 3 0 0x7f7f t.tp tri').map (fun p => (⟨.pitchBend, p.1, t.ch, p.2, 0, 0, []⟩ : Event)) }
+    { t with ev := t.ev ++ (ramp 3 0 0x3fff t.tp tri').map (fun p => (⟨.pitchBend, p.1, t.ch, p.2, 0, 0, []⟩ : Event)) }
   | .vOnTime tri => { t with vTime := some (t.tp, tri), vS := { t.vS with vals := none } }
 where
   scale (big : Bool) : List Int → List Int
